@@ -1,10 +1,11 @@
 #!/bin/bash
 # usage: try_patch.sh <ID> <patch.diff> [tier]   - apply a seeded change to /repo, run the check, undo
-ID=$1; P=$2; TIER=${3:-quick}
+ID=$1; P=$(readlink -f $2); TIER=${3:-quick}
 cd /repo || exit 2
-if ! git diff --quiet; then echo "repo dirty"; exit 2; fi
+if [ -n "$(git status --porcelain)" ]; then echo "repo dirty"; exit 2; fi
 git apply "$P" || { echo "PATCH DOES NOT APPLY"; exit 3; }
 cd /verif && ./run.py $ID $TIER > /tmp/try_$ID.log 2>&1; rc=$?
-git -C /repo checkout -- . ; git -C /repo clean -fdq
-grep -E "VIOLATION|KNOWN-FINDING|sig=|BROKEN|INCONCLUSIVE|-> exit" /tmp/try_$ID.log | head -12
+git -C /repo checkout HEAD -- . ; git -C /repo reset -q; git -C /repo clean -fdq
+if [ -n "$(git -C /repo status --porcelain)" ]; then echo "REPO NOT CLEAN AFTER UNDO"; fi
+grep -E "VIOLATION|KNOWN-FINDING|sig=|BROKEN|INCONCLUSIVE|-> exit" /tmp/try_$ID.log | head -${LINES_MAX:-12}
 echo "rc=$rc"
